@@ -33,7 +33,7 @@ CFG = {
     "components": [{"component": "frame", "trivial_regex": r"^(skip|bad-op.*)$"}],
     "exhaustive_quick": True,
     "exhaustive_thorough": True,
-    "rule": "EXHAUSTIVE part (the 'exhaustive' flag refers to this finite domain only): every sequence of <= 3 packets with lengths in "
+    "rule": "tcpPacketConn.ReadFrom with caller buffers len <= cap around the packet length (op tpcbuf; found F35); activeTCPConn driven in both directions; EXHAUSTIVE part (the 'exhaustive' flag refers to this finite domain only): every sequence of <= 3 packets with lengths in "
             "{0,1,2,3} (payload symbols 00/01 so that payloads look like headers) x every segmentation of the resulting stream into "
             "non-empty Reads x capacities {1,3} (quick; plus every prefix of the stream for <= 2 packets, plus <= 2 packets of lengths "
             "{0,1,2}, capacity 2, x every segmentation x every placement of (0,nil) Reads in front of a segment) / capacities {0..4} x "
